@@ -50,6 +50,16 @@ def col_keys(D, names):
     ks += [slice(None), slice(0, D), slice(1, None), slice(None, None, -1), slice(None, None, 2), slice(D, 0), slice(-1, None)]
     ks += [[0], [names[0]], [names[-1], 0], [D - 1, names[0], -1], list(range(D))[::-1], [names[i] for i in range(D)],
            [0, 0], tuple([names[-1], 0]), (D - 1,), []]
+    # every ordered pair of positions, negative ones included (runs like [-2, -1] and [-1, 0] are where a resolved list is
+    # most easily mistaken for a slice), alternately spelled as list / tuple and with a name for the second entry;
+    # and every run of three adjacent positions crossing zero
+    for i, a in enumerate(range(-D, D)):
+        for j, b in enumerate(range(-D, D)):
+            k = [a, names[b] if (i + j) % 3 == 2 else b]
+            ks.append(tuple(k) if (i + j) % 4 == 3 else k)
+    if D >= 3:
+        for a in range(-D, D - 2):
+            ks.append([a, a + 1, a + 2])
     ks += [Ellipsis]
     return ks
 
